@@ -134,6 +134,8 @@ def gen_case(run_seed: int, tier: str, index: int = 0) -> dict:
         "stickiness": r.choice([0.0, 0.0, 0.5, 0.8, 0.95]),
         "spurious": r.choice([0.0, 0.0, 0.15]),
         "preempt_p": r.choice([0.0, 0.0, 0.003, 0.02]),
+        # PCT-style: a few pre-chosen bytecode boundaries at which the running thread is pre-empted
+        "preempt_points": (sorted(r.sample(range(1, 4000), r.choice([1, 2, 3]))) if r.random() < 0.15 else None),
         "hide_fileno": r.random() < 0.4,
         "hide_cfr": r.random() < 0.3,
         "chunk": r.choice([None, 16, 64]),
@@ -436,7 +438,7 @@ def shrink_candidates(case: dict, violation: dict):
         c["graphs"] = [[i for g in base["graphs"] for i in g]]
         c["schedule"] = None
         yield c
-    for key, val in (("preempt_p", 0.0), ("spurious", 0.0), ("hide_fileno", False), ("hide_cfr", False), ("chunk", None), ("stickiness", 0.0)):
+    for key, val in (("preempt_p", 0.0), ("preempt_points", None), ("spurious", 0.0), ("hide_fileno", False), ("hide_cfr", False), ("chunk", None), ("stickiness", 0.0)):
         if base["sim"].get(key) != val:
             c = copy.deepcopy(base)
             c["sim"][key] = val
